@@ -12,44 +12,48 @@ import XotModel.Model.FspecSpec4
 
 namespace XotModel
 
+/-- The same store with the ghost flag set to `b`. -/
+def Forest.withOff (f : Forest) (b : Bool) : Forest := { f with everOff := b }
+
 /-- The same store with the ghost flag set. -/
-def Forest.off (f : Forest) : Forest := { f with everOff := true }
+abbrev Forest.off (f : Forest) : Forest := f.withOff true
 
 namespace Forest
+variable (e : Bool)
 
-theorem off_get? (f : Forest) (h : Nat) : f.off.get? h = f.get? h := rfl
-theorem off_ctx? (f : Forest) (h : Nat) : f.off.ctx? h = f.ctx? h := rfl
-theorem off_parent? (f : Forest) (h : Nat) : f.off.parent? h = f.parent? h := rfl
-theorem off_roots (f : Forest) : f.off.roots = f.roots := rfl
-theorem off_consolidation (f : Forest) : f.off.consolidation = f.consolidation := rfl
-theorem off_everOff (f : Forest) : f.off.everOff = true := rfl
-theorem off_isRoot (f : Forest) (h : Nat) : f.off.isRoot h = f.isRoot h := rfl
-theorem off_textOf (f : Forest) (h : Nat) : f.off.textOf h = f.textOf h := rfl
-theorem off_prevSibling (f : Forest) (h : Nat) : f.off.prevSibling h = f.prevSibling h := rfl
-theorem off_nextSibling (f : Forest) (h : Nat) : f.off.nextSibling h = f.nextSibling h := rfl
-theorem off_firstChild (f : Forest) (h : Nat) : f.off.firstChild h = f.firstChild h := rfl
-theorem off_lastChild (f : Forest) (h : Nat) : f.off.lastChild h = f.lastChild h := rfl
-theorem off_ancestors (f : Forest) (h : Nat) : f.off.ancestors h = f.ancestors h := rfl
+theorem off_get? (f : Forest) (h : Nat) : (f.withOff e).get? h = f.get? h := rfl
+theorem off_ctx? (f : Forest) (h : Nat) : (f.withOff e).ctx? h = f.ctx? h := rfl
+theorem off_parent? (f : Forest) (h : Nat) : (f.withOff e).parent? h = f.parent? h := rfl
+theorem off_roots (f : Forest) : (f.withOff e).roots = f.roots := rfl
+theorem off_consolidation (f : Forest) : (f.withOff e).consolidation = f.consolidation := rfl
+theorem off_everOff (f : Forest) : (f.withOff e).everOff = e := rfl
+theorem off_isRoot (f : Forest) (h : Nat) : (f.withOff e).isRoot h = f.isRoot h := rfl
+theorem off_textOf (f : Forest) (h : Nat) : (f.withOff e).textOf h = f.textOf h := rfl
+theorem off_prevSibling (f : Forest) (h : Nat) : (f.withOff e).prevSibling h = f.prevSibling h := rfl
+theorem off_nextSibling (f : Forest) (h : Nat) : (f.withOff e).nextSibling h = f.nextSibling h := rfl
+theorem off_firstChild (f : Forest) (h : Nat) : (f.withOff e).firstChild h = f.firstChild h := rfl
+theorem off_lastChild (f : Forest) (h : Nat) : (f.withOff e).lastChild h = f.lastChild h := rfl
+theorem off_ancestors (f : Forest) (h : Nat) : (f.withOff e).ancestors h = f.ancestors h := rfl
 theorem off_structureCheck (f : Forest) (p : Option Nat) (c : Nat) :
-    f.off.structureCheck p c = f.structureCheck p c := rfl
+    (f.withOff e).structureCheck p c = f.structureCheck p c := rfl
 theorem off_siblingReferenceCheck (f : Forest) (r c : Nat) :
-    f.off.siblingReferenceCheck r c = f.siblingReferenceCheck r c := rfl
-theorem off_prependPoint (f : Forest) (p : Nat) : f.off.prependPoint p = f.prependPoint p := rfl
-theorem off_setValue (f : Forest) (h : Nat) (v : Value) : f.off.setValue h v = (f.setValue h v).off := rfl
-theorem off_placeAfter (f : Forest) (r : Nat) (t : HTree) : f.off.placeAfter r t = (f.placeAfter r t).off := rfl
-theorem off_placeFirst (f : Forest) (p : Nat) (t : HTree) : f.off.placeFirst p t = (f.placeFirst p t).off := rfl
+    (f.withOff e).siblingReferenceCheck r c = f.siblingReferenceCheck r c := rfl
+theorem off_prependPoint (f : Forest) (p : Nat) : (f.withOff e).prependPoint p = f.prependPoint p := rfl
+theorem off_setValue (f : Forest) (h : Nat) (v : Value) : (f.withOff e).setValue h v = ((f.setValue h v).withOff e) := rfl
+theorem off_placeAfter (f : Forest) (r : Nat) (t : HTree) : (f.withOff e).placeAfter r t = ((f.placeAfter r t).withOff e) := rfl
+theorem off_placeFirst (f : Forest) (p : Nat) (t : HTree) : (f.withOff e).placeFirst p t = ((f.placeFirst p t).withOff e) := rfl
 theorem off_editAt (f : Forest) (s : Option Nat) (g : List HTree → List HTree) :
-    f.off.editAt s g = (f.editAt s g).off := by
+    (f.withOff e).editAt s g = ((f.editAt s g).withOff e) := by
   cases s <;> rfl
-theorem off_kidsOf (f : Forest) (p : Nat) : f.off.kidsOf p = f.kidsOf p := rfl
-theorem off_nbOf (f : Forest) (n : Nat) : f.off.nbOf n = f.nbOf n := rfl
+theorem off_kidsOf (f : Forest) (p : Nat) : (f.withOff e).kidsOf p = f.kidsOf p := rfl
+theorem off_nbOf (f : Forest) (n : Nat) : (f.withOff e).nbOf n = f.nbOf n := rfl
 
-theorem off_off (f : Forest) : f.off.off = f.off := rfl
+theorem withOff_self (f : Forest) : f.withOff f.everOff = f := rfl
 
 /-- Two stores that agree up to the ghost flag and on the ghost flag are equal. -/
-theorem off_inj {X Y : Forest} (h : X.off = Y.off) (he : X.everOff = Y.everOff) : X = Y := by
+theorem off_inj {X Y : Forest} (h : (X.withOff e) = (Y.withOff e)) (he : X.everOff = Y.everOff) : X = Y := by
   cases X; cases Y
-  simp only [off, Forest.mk.injEq] at h
+  simp only [withOff, Forest.mk.injEq] at h
   simp only at he
   simp [h, he]
 
@@ -62,7 +66,7 @@ theorem off_inv {f : Forest} (inv : f.Inv) : f.off.Inv := by
   | true => rw [h] at this; exact this
   | false => rw [h] at this; exact validList_weaken _ this
 
-theorem off_spliceOut (f : Forest) (h : Nat) : f.off.spliceOut h = (f.spliceOut h).off := by
+theorem off_spliceOut (f : Forest) (h : Nat) : (f.withOff e).spliceOut h = ((f.spliceOut h).withOff e) := by
   unfold spliceOut
   rw [off_get?]
   cases f.get? h with
@@ -74,7 +78,7 @@ theorem off_spliceOut (f : Forest) (h : Nat) : f.off.spliceOut h = (f.spliceOut 
     · split <;> rfl
     · rfl
 
-theorem off_cut (f : Forest) (h : Nat) : f.off.cut h = ((f.cut h).1.off, (f.cut h).2) := by
+theorem off_cut (f : Forest) (h : Nat) : (f.withOff e).cut h = (((f.cut h).1.withOff e), (f.cut h).2) := by
   unfold cut
   rw [off_get?]
   cases f.get? h with
@@ -84,12 +88,12 @@ theorem off_cut (f : Forest) (h : Nat) : f.off.cut h = ((f.cut h).1.off, (f.cut 
     rw [off_isRoot]
     split <;> rfl
 
-theorem off_dropSubtree (f : Forest) (h : Nat) : f.off.dropSubtree h = (f.dropSubtree h).off := by
+theorem off_dropSubtree (f : Forest) (h : Nat) : (f.withOff e).dropSubtree h = ((f.dropSubtree h).withOff e) := by
   unfold dropSubtree
   rw [off_cut]
 
 theorem off_removeConsolidate (f : Forest) (a b : Option Nat) :
-    f.off.removeConsolidate a b = ((f.removeConsolidate a b).1.off, (f.removeConsolidate a b).2) := by
+    (f.withOff e).removeConsolidate a b = (((f.removeConsolidate a b).1.withOff e), (f.removeConsolidate a b).2) := by
   unfold removeConsolidate
   rw [off_consolidation]
   split
@@ -101,7 +105,7 @@ theorem off_removeConsolidate (f : Forest) (a b : Option Nat) :
     simp only [off_setValue, off_spliceOut]
 
 theorem off_addConsolidate (f : Forest) (node : Nat) (a b : Option Nat) :
-    f.off.addConsolidate node a b = ((f.addConsolidate node a b).1.off, (f.addConsolidate node a b).2) := by
+    (f.withOff e).addConsolidate node a b = (((f.addConsolidate node a b).1.withOff e), (f.addConsolidate node a b).2) := by
   unfold addConsolidate
   rw [off_consolidation]
   split
@@ -134,7 +138,7 @@ theorem off_addConsolidate (f : Forest) (node : Nat) (a b : Option Nat) :
             cases f.textOf n <;> simp only [off_setValue, off_spliceOut]
 
 theorem off_checkedInsertAfter (f : Forest) (r n : Nat) :
-    f.off.checkedInsertAfter r n = ((f.checkedInsertAfter r n).1.off, (f.checkedInsertAfter r n).2) := by
+    (f.withOff e).checkedInsertAfter r n = (((f.checkedInsertAfter r n).1.withOff e), (f.checkedInsertAfter r n).2) := by
   unfold checkedInsertAfter
   rw [off_ancestors, off_isRoot, off_cut]
   split
@@ -145,7 +149,7 @@ theorem off_checkedInsertAfter (f : Forest) (r n : Nat) :
       | mk f' o => cases o <;> rfl
 
 theorem off_checkedPrepend (f : Forest) (p c : Nat) :
-    f.off.checkedPrepend p c = ((f.checkedPrepend p c).1.off, (f.checkedPrepend p c).2) := by
+    (f.withOff e).checkedPrepend p c = (((f.checkedPrepend p c).1.withOff e), (f.checkedPrepend p c).2) := by
   unfold checkedPrepend
   rw [off_ancestors, off_cut]
   split
@@ -155,8 +159,11 @@ theorem off_checkedPrepend (f : Forest) (p c : Nat) :
 
 end Forest
 
+section
+variable (e : Bool)
+
 theorem off_insertAfterTail (X : Forest) (ref c : Nat) :
-    insertAfterTail X.off ref c = ((insertAfterTail X ref c).1.off, (insertAfterTail X ref c).2) := by
+    insertAfterTail (X.withOff e) ref c = (((insertAfterTail X ref c).1.withOff e), (insertAfterTail X ref c).2) := by
   unfold insertAfterTail
   simp only [Forest.off_nextSibling, Forest.off_addConsolidate]
   generalize X.addConsolidate c (some ref) (X.nextSibling ref) = R2
@@ -183,15 +190,15 @@ theorem prependTail_eq (X : Forest) (p c : Nat) :
       else ((placeFirstNormal (X.addConsolidate c none (X.firstChild p)).1 p c).1, .err .nodeError) := rfl
 
 theorem off_placeFirstNormal (g : Forest) (p c : Nat) :
-    placeFirstNormal g.off p c = ((placeFirstNormal g p c).1.off, (placeFirstNormal g p c).2) := by
+    placeFirstNormal (g.withOff e) p c = (((placeFirstNormal g p c).1.withOff e), (placeFirstNormal g p c).2) := by
   unfold placeFirstNormal
   rw [Forest.off_prependPoint]
   split
-  · exact Forest.off_checkedInsertAfter _ _ _
-  · exact Forest.off_checkedPrepend _ _ _
+  · exact Forest.off_checkedInsertAfter _ _ _ _
+  · exact Forest.off_checkedPrepend _ _ _ _
 
 theorem off_prependTail (X : Forest) (p c : Nat) :
-    prependTail X.off p c = ((prependTail X p c).1.off, (prependTail X p c).2) := by
+    prependTail (X.withOff e) p c = (((prependTail X p c).1.withOff e), (prependTail X p c).2) := by
   rw [prependTail_eq, prependTail_eq]
   simp only [Forest.off_firstChild, Forest.off_addConsolidate]
   generalize X.addConsolidate c none (X.firstChild p) = R2
@@ -204,10 +211,13 @@ theorem off_prependTail (X : Forest) (p c : Nat) :
     obtain ⟨g3, b3⟩ := R3
     cases b3 <;> rfl
 
+end
+
 namespace Forest
+variable (e : Bool)
 
 theorem off_insertAfter (f : Forest) (r c : Nat) :
-    f.off.insertAfter r c = ((f.insertAfter r c).1.off, (f.insertAfter r c).2) := by
+    (f.withOff e).insertAfter r c = (((f.insertAfter r c).1.withOff e), (f.insertAfter r c).2) := by
   rw [insertAfter_unfold, insertAfter_unfold]
   simp only [off_structureCheck, off_parent?, off_siblingReferenceCheck, off_nextSibling, off_prevSibling,
     off_removeConsolidate, off_insertAfterTail]
@@ -218,7 +228,7 @@ theorem off_insertAfter (f : Forest) (r c : Nat) :
     · split <;> rfl
 
 theorem off_prepend (f : Forest) (p c : Nat) :
-    f.off.prepend p c = ((f.prepend p c).1.off, (f.prepend p c).2) := by
+    (f.withOff e).prepend p c = (((f.prepend p c).1.withOff e), (f.prepend p c).2) := by
   rw [prepend_unfold, prepend_unfold]
   simp only [off_structureCheck, off_firstChild, off_nextSibling, off_prevSibling,
     off_removeConsolidate, off_prependTail]
@@ -229,23 +239,23 @@ theorem off_prepend (f : Forest) (p c : Nat) :
 /-! ### The specifications -/
 
 theorem off_mergeLeftAt (f : Forest) (s : Option Nat) (nb : Option Nat × Option Nat) :
-    f.off.mergeLeftAt s nb = (f.mergeLeftAt s nb).off := by
+    (f.withOff e).mergeLeftAt s nb = ((f.mergeLeftAt s nb).withOff e) := by
   obtain ⟨a, b⟩ := nb
   cases s <;> cases a <;> cases b <;> try rfl
   simp only [mergeLeftAt, off_consolidation, off_editAt]
   split <;> rfl
 
-theorem off_mergeNewAt (f : Forest) (q n : Nat) : f.off.mergeNewAt q n = (f.mergeNewAt q n).off := by
+theorem off_mergeNewAt (f : Forest) (q n : Nat) : (f.withOff e).mergeNewAt q n = ((f.mergeNewAt q n).withOff e) := by
   simp only [mergeNewAt, off_consolidation, off_editAt]
   split <;> rfl
 
 end Forest
 
-theorem Spec.off_specMoveP (dest : Dest) (c : Nat) (f : Forest) :
-    Spec.specMoveP dest c f.off = (Spec.specMoveP dest c f).off := by
+theorem Spec.off_specMoveP (e : Bool) (dest : Dest) (c : Nat) (f : Forest) :
+    Spec.specMoveP dest c (f.withOff e) = ((Spec.specMoveP dest c f).withOff e) := by
   unfold Spec.specMoveP
-  have h1 : dest.occupiedBy f.off c = dest.occupiedBy f c := by cases dest <;> rfl
-  have h2 : dest.site f.off = dest.site f := by cases dest <;> rfl
+  have h1 : dest.occupiedBy (f.withOff e) c = dest.occupiedBy f c := by cases dest <;> rfl
+  have h2 : dest.site (f.withOff e) = dest.site f := by cases dest <;> rfl
   rw [h1, h2, Forest.off_get?]
   split
   · rfl
@@ -257,5 +267,56 @@ theorem Spec.off_specMoveP (dest : Dest) (c : Nat) (f : Forest) :
       | some q =>
         simp only [Forest.off_parent?, Forest.off_nbOf, Forest.off_editAt, Forest.off_mergeLeftAt,
           Forest.off_mergeNewAt]
+
+end XotModel
+
+namespace XotModel
+namespace Forest
+
+/-! ### The ghost flag is carried along unchanged -/
+
+theorem insertAfter_everOff (f : Forest) (r c : Nat) : (f.insertAfter r c).1.everOff = f.everOff := by
+  have h := congrArg Prod.fst (off_insertAfter f.everOff f r c)
+  rw [withOff_self] at h
+  exact (congrArg Forest.everOff h).trans rfl
+
+theorem prepend_everOff (f : Forest) (p c : Nat) : (f.prepend p c).1.everOff = f.everOff := by
+  have h := congrArg Prod.fst (off_prepend f.everOff f p c)
+  rw [withOff_self] at h
+  exact (congrArg Forest.everOff h).trans rfl
+
+theorem dropSubtree_everOff (f : Forest) (a : Nat) : (f.dropSubtree a).everOff = f.everOff := by
+  have h := off_dropSubtree f.everOff f a
+  rw [withOff_self] at h
+  exact (congrArg Forest.everOff h).trans rfl
+
+theorem removeConsolidate_everOff (f : Forest) (a b : Option Nat) :
+    (f.removeConsolidate a b).1.everOff = f.everOff := by
+  have h := congrArg Prod.fst (off_removeConsolidate f.everOff f a b)
+  rw [withOff_self] at h
+  exact (congrArg Forest.everOff h).trans rfl
+
+theorem mergeLeftAt_everOff (f : Forest) (s : Option Nat) (nb : Option Nat × Option Nat) :
+    (f.mergeLeftAt s nb).everOff = f.everOff := by
+  have h := off_mergeLeftAt f.everOff f s nb
+  rw [withOff_self] at h
+  exact (congrArg Forest.everOff h).trans rfl
+
+theorem mergeNewAt_everOff (f : Forest) (q n : Nat) : (f.mergeNewAt q n).everOff = f.everOff := by
+  have h := off_mergeNewAt f.everOff f q n
+  rw [withOff_self] at h
+  exact (congrArg Forest.everOff h).trans rfl
+
+theorem editAt_everOff (f : Forest) (s : Option Nat) (g : List HTree → List HTree) :
+    (f.editAt s g).everOff = f.everOff := by
+  cases s <;> rfl
+
+end Forest
+
+theorem Spec.specMoveP_everOff (dest : Dest) (c : Nat) (f : Forest) :
+    (Spec.specMoveP dest c f).everOff = f.everOff := by
+  have h := Spec.off_specMoveP f.everOff dest c f
+  rw [Forest.withOff_self] at h
+  exact (congrArg Forest.everOff h).trans rfl
 
 end XotModel
